@@ -636,6 +636,12 @@ fn insert_imported_namespace(
             vec![namespace_sym.name.clone()]
         }
         None => {
+            // A file that imports itself already has all its own
+            // definitions in scope.
+            if Rc::ptr_eq(&current_ns, &imported_ns) {
+                return vec![];
+            }
+
             let mut syms = vec![];
 
             // Load all the public items into the current namespace.
